@@ -259,12 +259,20 @@ def cycle_nonempty(F, rep, rule="CYCLE"):
                 binds = [b["hid"] for b in pat_bindings(alt)]
                 for c in nodes(arm["body"], "MethodCall"):
                     if c["m"] == "for_each" and any(x.get("hid") in binds for x in nodes(c["recv"], "Path")):
+                        # every member: no adaptor between the list and the closure that can leave members out (a cycle of types
+                        # only, filtered for "values", reports nothing - Err with no errors, which main() treats as success)
+                        if any(r_.get("k") == "MethodCall" and r_["m"] in ("filter", "filter_map", "skip", "skip_while", "take", "take_while",
+                                                                             "step_by", "flat_map", "flatten")
+                               for r_ in nodes(c["recv"])):
+                            continue
                         cl = [a for a in c["args"] if a.get("k") == "Closure"]
                         # (error_no_panic! pushes under `if !self.panic`, a flag it resets itself after every use)
                         if cl and any(x.get("k") == "MethodCall" and x["m"] == "push" for x in nodes(cl[0]["body"])):
                             ok = True
                 for lp in nodes(arm["body"], "ForLoop"):
                     if any(x.get("hid") in binds for x in nodes(lp["iter"], "Path")) and \
+                            not any(r_.get("k") == "MethodCall" and r_["m"] in ("filter", "filter_map", "skip", "skip_while", "take", "take_while", "step_by")
+                                    for r_ in nodes(lp["iter"])) and \
                             any(x.get("k") == "MethodCall" and x["m"] == "push" for x in nodes(lp["body"])):
                         ok = True
     rep.ob(rule, "Compiler::compile|one-error-per-cycle-member", ok,
